@@ -469,6 +469,16 @@ func stateConcurrent(e *Env) {
 				// task does in between (unspecified argument consumption)
 				op = tOp{"ChannelModes", []string{op.A[0], []string{"+n", "-n", "+s", "+t-s", "+i"}[g.Intn(5)]}}
 			}
+			// readers matter as much as writers here: a snapshot taken while
+			// another task is half-way through a mutation is what breaks atomicity
+			switch g.W(6, 1, 1, 1) {
+			case 1:
+				op = tOp{"Me", nil}
+			case 2:
+				op = tOp{"GetNick", []string{u.nicks[g.Intn(len(u.nicks))]}}
+			case 3:
+				op = tOp{"GetChannel", []string{u.chans[g.Intn(len(u.chans))]}}
+			}
 			plans[t].ops = append(plans[t].ops, op)
 			applyOp(shadow, op)
 		}
